@@ -165,6 +165,9 @@ func TestVerif_C04C18C07_StringAxioms(t *testing.T) {
 		if n := rc(s); !(0 <= n && n <= len(s) && (len(s) == 0 || n > 0)) {
 			res.violate("RuneCountInString stub (%q)", s)
 		}
+		if _, size := utf8.DecodeRuneInString(s); !(0 <= size && size <= len(s) && (len(s) == 0 || size >= 1)) {
+			res.violate("DecodeRuneInString stub (%q)", s)
+		}
 		// subSplit for all i<=j<=k
 		for i := 0; i <= len(s); i++ {
 			for j := i; j <= len(s); j++ {
